@@ -8,7 +8,7 @@ from .. import gen, impl, oracle, ser, stream
 
 ID = "C02"
 LEVEL = "proof"
-PROPS_MODULE = "SymmModel.Props.C02All4"
+PROPS_MODULE = "SymmModel.Props.C02All5"
 THEOREMS = [
     "SymmModel.C02.tensordotBlockwise_charge",
     "SymmModel.C02.tensordotBlockwise_sectors",
@@ -45,10 +45,12 @@ THEOREMS = [
     "SymmModel.C06.tensordotA_kind_blind",
     "SymmModel.C06.tensordotA_synced_modes",
     "SymmModel.C06.tensordotFused_obs_eq_blockwise_all",
-    "SymmModel.C06.tensordotA_modes_agree_all"
+    "SymmModel.C06.tensordotA_modes_agree_all",
+    "SymmModel.C02.einsumA_toDense",
+    "SymmModel.C02.einsumA_toDense_eq"
 ]
-LEAN_FILES = ["SymmModel.Props.C02", "SymmModel.Proofs.TdotDense", "SymmModel.Proofs.TdotLemmas", "SymmModel.Proofs.Accum", "SymmModel.Proofs.BlkLemmas", "SymmModel.Props.C02b", "SymmModel.Props.C02All", "SymmModel.Proofs.TdotMore", "SymmModel.Props.C06b", "SymmModel.Props.C02All2", "SymmModel.Props.C06c", "SymmModel.Props.C02All3", "SymmModel.Props.C06d", "SymmModel.Props.C02All4"]
-PLANNED = ["dense form of einsumA for several traced pairs (sector/elem level proved", "permutation equations and the matrix trace proved at dense level)"]
+LEAN_FILES = ["SymmModel.Props.C02", "SymmModel.Proofs.TdotDense", "SymmModel.Proofs.TdotLemmas", "SymmModel.Proofs.Accum", "SymmModel.Proofs.BlkLemmas", "SymmModel.Props.C02b", "SymmModel.Props.C02All", "SymmModel.Proofs.TdotMore", "SymmModel.Props.C06b", "SymmModel.Props.C02All2", "SymmModel.Props.C06c", "SymmModel.Props.C02All3", "SymmModel.Props.C06d", "SymmModel.Props.C02All4", "SymmModel.Props.C02c", "SymmModel.Props.C02All5", "SymmModel.Proofs.Dense5b", "SymmModel.Proofs.Dense5c", "SymmModel.Proofs.Dense5d", "SymmModel.Proofs.Dense5e"]
+PLANNED = []
 RULE = ("random contractible pairs of abelian arrays over Z2/U1/Z2Z2/U1U1/Z4 (static and generic classes), "
         "0..ndim contracted axes at random positions incl. negative axes, sparse operands, real and complex "
         "data, modes auto/fused/blockwise through method/function/autoray entry points; matmul, trace, einsum. "
